@@ -221,3 +221,37 @@ Theorem C13_revoke_many_entry : forall ts s r w id s',
   (forall t, ~ In t ts -> entry s' id t = entry s id t).
 Proof. exact revoke_many_entry. Qed.
 Print Assumptions C13_revoke_many_entry.
+
+(** Frame property of the [active] flag.  GRANT and REVOKE (any number of event types), and the
+    manager-level permission operations, leave the flag of EVERY account unchanged; a command
+    changes the flag of account [id] only if it is an executed CREATE USER [id] (absent -> active)
+    or REVOKE KEY [id] (-> inactive); over all histories (gates, sessions, restart included) an
+    account whose key was revoked never becomes active again. *)
+Theorem C13_perm_commands_keep_active : forall s who r w ts uid k id,
+  active_of (snd (dispatch s who (CGrant r w ts uid) k)) id = active_of s id /\
+  active_of (snd (dispatch s who (CRevokePerm r w ts uid) k)) id = active_of s id.
+Proof. exact perm_commands_keep_active. Qed.
+Print Assumptions C13_perm_commands_keep_active.
+
+Theorem C13_grant_permission_keeps_active : forall s id0 t p id,
+  active_of (snd (grant_permission s id0 t p)) id = active_of s id.
+Proof. exact grant_permission_keeps_active. Qed.
+Print Assumptions C13_grant_permission_keeps_active.
+
+Theorem C13_revoke_permission_keeps_active : forall s id0 t id,
+  active_of (snd (revoke_permission s id0 t)) id = active_of s id.
+Proof. exact revoke_permission_keeps_active. Qed.
+Print Assumptions C13_revoke_permission_keeps_active.
+
+Theorem C13_dispatch_active_frame : forall s who c k id,
+  let s' := snd (dispatch s who c k) in
+  active_of s' id = active_of s id \/
+  (exists key roles, c = CCreateUser id key roles /\ active_of s id = None /\ active_of s' id = Some true) \/
+  (c = CRevokeKey id /\ active_of s' id = Some false).
+Proof. exact dispatch_active_frame. Qed.
+Print Assumptions C13_dispatch_active_frame.
+
+Theorem C13_never_reactivated : forall s0 s id, reachable_from s0 s ->
+  active_of s0 id = Some false -> active_of s id = Some false.
+Proof. exact never_reactivated. Qed.
+Print Assumptions C13_never_reactivated.
